@@ -161,15 +161,113 @@ func (c *Ctx) methodByRole(typ, name string) *ssa.Function {
 	return nil
 }
 
-// isWrapFn: f is one of the library's error wrappers.
+// isWrapFn: f is one of the library's error wrappers (the four of the reference tree, or a new wrapper entry point built on
+// them, see wrapInfoOf).
 func (c *Ctx) isWrapFn(f *ssa.Function) bool {
+	_, ok := c.wrapInfoOf(f)
+	return ok
+}
+
+// wrapInfo: which parameter of an error wrapper is the cause and which (if any) the retry handle.
+type wrapInfo struct {
+	cause, handle int
+}
+
+var wrapInfoCache = map[*Ctx]map[*ssa.Function]*wrapInfo{}
+
+// wrapInfoOf: the four wrappers of the reference tree, plus any other package function `g(err error, …) error` (cause first)
+// every return of which is (a) a call of a wrapper with g's cause (and handle) passed on, (b) an *errorWithRetry built from
+// such a wrapped cause and g's handle parameter, or (c) the wrapped cause itself where it is not an *Error (nil / io.EOF).
+func (c *Ctx) wrapInfoOf(f *ssa.Function) (wrapInfo, bool) {
 	if f == nil {
-		return false
+		return wrapInfo{}, false
 	}
-	for _, n := range []string{"wrapError", "wrapErrorf", "wrapErrorWithRetry", "wrapErrorImpl"} {
-		if f == c.Func(n) {
-			return true
+	m := wrapInfoCache[c]
+	if m == nil {
+		m = map[*ssa.Function]*wrapInfo{}
+		wrapInfoCache[c] = m
+		for _, n := range []string{"wrapError", "wrapErrorf", "wrapErrorImpl"} {
+			if g := c.Func(n); g != nil {
+				m[g] = &wrapInfo{0, -1}
+			}
+		}
+		if g := c.Func("wrapErrorWithRetry"); g != nil {
+			m[g] = &wrapInfo{0, 1}
 		}
 	}
-	return false
+	if wi, ok := m[f]; ok {
+		if wi == nil {
+			return wrapInfo{}, false
+		}
+		return *wi, true
+	}
+	m[f] = nil // in progress / not a wrapper
+	if f.Pkg != c.Pkg || f.Blocks == nil || f.Parent() != nil || f.Signature.Recv() != nil || len(f.Params) == 0 {
+		return wrapInfo{}, false
+	}
+	if f.Signature.Results().Len() != 1 || f.Signature.Results().At(0).Type().String() != "error" || f.Params[0].Type().String() != "error" {
+		return wrapInfo{}, false
+	}
+	cause := ssa.Value(f.Params[0])
+	handle := -1
+	for i, p := range f.Params {
+		if typeName(p.Type()) == "retryFn" {
+			handle = i
+		}
+	}
+	// wrapped: v is a wrapper applied to g's cause
+	var wrapped func(v ssa.Value, depth int) bool
+	wrapped = func(v ssa.Value, depth int) bool {
+		if depth > 4 {
+			return false
+		}
+		call, callee := c.asCall(v)
+		if call == nil || callee == nil || callee == f {
+			return false
+		}
+		wi, ok := c.wrapInfoOf(callee)
+		if !ok || wi.cause >= len(call.Call.Args) {
+			return false
+		}
+		a := c.Resolve(call.Call.Args[wi.cause])
+		if a != cause && !wrapped(a, depth+1) {
+			return false
+		}
+		if wi.handle >= 0 {
+			if handle < 0 || c.Resolve(call.Call.Args[wi.handle]) != ssa.Value(f.Params[handle]) {
+				return false
+			}
+		}
+		return true
+	}
+	usesHandle := false
+	for _, ret := range returnsOf(f) {
+		rv := c.Resolve(ret.Results[0])
+		if wrapped(rv, 0) {
+			if call, callee := c.asCall(rv); call != nil {
+				if wi, _ := c.wrapInfoOf(callee); wi.handle >= 0 {
+					usesHandle = true
+				}
+			}
+			continue
+		}
+		if al, ok := rv.(*ssa.Alloc); ok && typeName(al.Type()) == "errorWithRetry" && handle >= 0 {
+			if c.Resolve(c.storedField(al, "retryFn")) == ssa.Value(f.Params[handle]) {
+				inner := c.Resolve(c.storedField(al, "errorInterface"))
+				if ex, isEx := inner.(*ssa.Extract); isEx {
+					if ta, isTA := ex.Tuple.(*ssa.TypeAssert); isTA && wrapped(c.Resolve(ta.X), 0) {
+						usesHandle = true
+						continue
+					}
+				}
+			}
+		}
+		return wrapInfo{}, false
+	}
+	wi := &wrapInfo{0, -1}
+	if usesHandle {
+		wi.handle = handle
+	}
+	m[f] = wi
+	return *wi, true
 }
